@@ -99,6 +99,13 @@ func genC09(r *rt.Rand, tier string, idx int) *world.Scenario {
 			{Op: "commit", Class: "data", Who: "client", Nth: 2 + x%3 + r.Intn(3), Effect: kinds[(x/2)%2]},
 		}
 	}
+	if r.Chance(0.3) {
+		// the outage lasts a little longer than the one lost answer: the repair's first look(s) at the key fail too
+		sc.Class += "+repair-read-fails"
+		for i := 0; i < 1+r.Intn(2); i++ {
+			sc.Plan = append(sc.Plan, &simkv.Fault{Op: []string{"iter", "next"}[r.Intn(2)], Who: "retry.tick", Nth: i + 1, Effect: "err"})
+		}
+	}
 	sc.Inactive = swarmSites(r, "kv.commit", "kv.commit.ret", "seq.commit")
 	sc.Extra = map[string]int64{"keep_faults": 1}
 	sc.MaxSteps = 60000
